@@ -190,3 +190,56 @@ pub fn check_zoom_level(
     }
     p
 }
+
+
+/// Coverage statistics of a bigBed chromosome by a sweep over the entries' end points (no per-base
+/// array: for chromosomes of 10^8 bases and more, and for entries reaching beyond the chromosome
+/// end, whose bases count like any others).  Zero-length entries cover nothing.
+pub fn bed_stats_sweep(ch: &BChrom) -> Stats {
+    let mut ev: Vec<(u64, i64)> = vec![];
+    for it in &ch.items {
+        if it.e > it.s {
+            ev.push((it.s as u64, 1));
+            ev.push((it.e as u64, -1));
+        }
+    }
+    ev.sort();
+    let mut s = Stats { min: f64::INFINITY, max: f64::NEG_INFINITY, ..Default::default() };
+    let mut depth: i64 = 0;
+    let mut prev: u64 = 0;
+    for (pos, d) in ev {
+        if pos > prev && depth > 0 {
+            let len = (pos - prev) as f64;
+            let dp = depth as f64;
+            s.bases += pos - prev;
+            s.min = s.min.min(dp);
+            s.max = s.max.max(dp);
+            s.sum += len * dp;
+            s.sumsq += len * dp * dp;
+            s.abs_sum += len * dp;
+            s.abs_sumsq += len * dp * dp;
+        }
+        prev = pos;
+        depth += d;
+    }
+    s
+}
+
+/// Statistics of a bigWig chromosome from its (non-overlapping) values, weighted by length.
+pub fn wig_stats_items(ch: &WChrom) -> Stats {
+    let mut s = Stats { min: f64::INFINITY, max: f64::NEG_INFINITY, ..Default::default() };
+    for it in &ch.items {
+        if it.e > it.s {
+            let len = (it.e - it.s) as f64;
+            let v = it.v() as f64;
+            s.bases += (it.e - it.s) as u64;
+            s.min = s.min.min(v);
+            s.max = s.max.max(v);
+            s.sum += len * v;
+            s.sumsq += len * v * v;
+            s.abs_sum += len * v.abs();
+            s.abs_sumsq += len * v * v;
+        }
+    }
+    s
+}
